@@ -417,11 +417,20 @@ def parse_labels(text, marker):
     return out
 
 
-def main(run):
-    info = proof_stage(run, "C16", extra_targets=["corr/C16_corr.vo"])
-    harness_build()
-    n = 400 if run.tier == "quick" else 4000
-    cases = gen_cases(run, n)
+def case_of(c):
+    """what ./check C16 --replay needs: configuration, time stamps (AST or None, text) of the one journal, report zones"""
+    return {"cfg": c["cfg"], "items": c["items"], "tags": c["tags"], "rzones": c["rzones"]}
+
+
+def main(run, only=None):
+    """only: the cases of a replay, with their report zones (no generation, no proof stage, no verdict)"""
+    if only is None:
+        info = proof_stage(run, "C16", extra_targets=["corr/C16_corr.vo"])
+        harness_build()
+        n = 400 if run.tier == "quick" else 4000
+        cases = gen_cases(run, n)
+    else:
+        cases = only
     r = run.rng
     reqs, rmap = [], []
     for ci, c in enumerate(cases):
@@ -429,9 +438,12 @@ def main(run):
         text = journal_of(c["items"])
         c["journal"] = text
         # report zones: UTC + two others (valid multi-transaction journals only get the extra runs)
-        multi = len(c["items"]) >= 2 or "corpus" in c["tags"] or r.random() < 0.3
-        zs = [RZONES[0]] + (r.sample(RZONES[1:], 2) if multi else [])
-        c["rzones"] = zs
+        if only is None:
+            multi = len(c["items"]) >= 2 or "corpus" in c["tags"] or r.random() < 0.3
+            zs = [RZONES[0]] + (r.sample(RZONES[1:], 2) if multi else [])
+            c["rzones"] = zs
+        else:
+            zs = c["rzones"]
         for zi, (zn, _) in enumerate(zs):
             ops = [{"op": "txns"}, {"op": "register"}, {"op": "balance", "prices": False}, {"op": "identity"}, {"op": "text_register"}]
             reqs.append({"conf": {"toml": J.make_toml(rtz=zn, **kw)}, "inputs": [{"text": text}], "ops": ops})
@@ -484,14 +496,14 @@ def main(run):
                 if not o or o.get("stage") != "done":
                     run.violation("journal accepted under report zone UTC but not under %s" % c["rzones"][zi][0],
                                   {"journal": c["journal"], "config": cfg_toml_kw(c["cfg"]), "report_zone": c["rzones"][zi][0],
-                                   "result": {k: (o or {}).get(k) for k in ("stage", "err")}})
+                                   "result": {k: (o or {}).get(k) for k in ("stage", "err")}, "case": case_of(c)})
                     continue
                 for oi, name in ((0, "transaction set / order"), (1, "register entries"), (2, "balance figures")):
                     if json.dumps(o["results"][oi], sort_keys=True) != json.dumps(base[oi], sort_keys=True):
                         run.violation("report time zone changes %s (must be display-only)" % name,
                                       {"journal": c["journal"], "config": cfg_toml_kw(c["cfg"]),
                                        "report_zones": ["UTC", c["rzones"][zi][0]],
-                                       "under_UTC": base[oi], "under_other": o["results"][oi]})
+                                       "under_UTC": base[oi], "under_other": o["results"][oi], "case": case_of(c)})
         # the register (structured and text) lists the transactions in the order of the transaction set
         if st == "done" and all(a is not None for a in asts):
             want = [d for _, d in c["order"]]
@@ -501,13 +513,13 @@ def main(run):
                 got = [e["txn"]["desc"] for e in reg]
                 if got != want:
                     run.violation("register entries are not in the order of the transaction set (by instant)",
-                                  {"journal": c["journal"], "config": cfg_toml_kw(c["cfg"]), "transaction_order": want, "register_order": got})
+                                  {"journal": c["journal"], "config": cfg_toml_kw(c["cfg"]), "transaction_order": want, "register_order": got, "case": case_of(c)})
             txt = rr["results"][4].get("ok")
             if isinstance(txt, str):
                 got = [ln.split(" '", 1)[1].strip() for ln in txt.split("\n") if ln[:1].isdigit() and " 't" in ln]
                 if got != want:
                     run.violation("register text is not in the order of the transaction set (by instant)",
-                                  {"journal": c["journal"], "config": cfg_toml_kw(c["cfg"]), "transaction_order": want, "register_text_order": got})
+                                  {"journal": c["journal"], "config": cfg_toml_kw(c["cfg"]), "transaction_order": want, "register_text_order": got, "case": case_of(c)})
         # display: identity export (own offset) and register label (report zone)
         if st == "done":
             for zi, (zn, zfix) in enumerate(c["rzones"]):
@@ -534,7 +546,7 @@ def main(run):
         if b is None:
             raise Infra("no result for %s case %d" % (kind, ci))
         run.cov["evaluations"] += 1
-        rep = {"journal": c["journal"], "config": cfg_toml_kw(c["cfg"]), "tags": c["tags"], "source": c.get("src", "gen")}
+        rep = {"journal": c["journal"], "config": cfg_toml_kw(c["cfg"]), "tags": c["tags"], "source": c.get("src", "gen"), "case": case_of(c)}
         if kind == "ts":
             a, t = c["items"][x]
             impl = c["impl"][x]
@@ -584,6 +596,8 @@ def main(run):
                 run.cov["disagreements_checked"] += 1
                 rep["correspondence"] = "C16_corr.c16_disp_case (Tstamp.rfc_3339 / as_tz_full)"
                 run.violation("correspondence broken: model display differs from the implementation (labels parse back to the instant)", rep, found_input=False)
+    if only is not None:
+        return None
     run.cov["distinct_nontrivial"] = len(distinct)
     run.cov["rule"] = ("one configuration (journal zone fixed offset incl. +-25:59 and sub-minute, or named zone with Python zoneinfo as tz oracle; 5 default times) "
                        "x time stamps in the three notations printed from an AST (years 0000..9999, leap days, fractions of 1-9 digits with trailing zeros, offsets up to +-25:59 / mm up to 99, "
@@ -600,20 +614,21 @@ def main(run):
 
 
 def replay(run, path):
-    j = json.load(open(path))
-    print(json.dumps(j, indent=1, ensure_ascii=False)[:6000])
-    rp = j.get("replay", {})
-    if "journal" in rp and "config" in rp:
-        harness_build()
-        out = []
-        for zn in rp.get("report_zones", ["UTC"]):
-            kw = dict(rp["config"])
-            rr = harness_run([{"conf": {"toml": J.make_toml(rtz=zn, **kw)}, "inputs": [{"text": rp["journal"]}],
-                               "ops": [{"op": "txns"}, {"op": "text_register"}]}])[0]
-            if rr.get("stage") == "done":
-                out.append({"report_zone": zn, "order": [(t["ts"]["ns"], t["ts"]["off"], t["desc"]) for t in rr["results"][0].get("ok", [])],
-                            "register": rr["results"][1].get("ok")})
-            else:
-                out.append({"report_zone": zn, "stage": rr.get("stage"), "err": rr.get("err")})
-        print(json.dumps({"replayed": out}, indent=1, ensure_ascii=False)[:6000])
-    return 0
+    """the stored configuration + time stamps as one journal under the stored report zones: harness + c16_case /
+    c16_order_case / c16_disp_case and the frame / order comparisons of the normal run"""
+    j, rp, rc = replay_begin(run, path)
+    if rc is not None:
+        return rc
+    cs = rp.get("case")
+    if not (isinstance(cs, dict) and isinstance(cs.get("cfg"), dict) and cs.get("items") and cs.get("rzones")):
+        return replay_print(j)
+    print(j.get("what"))
+    c = {"cfg": {"deftime": tuple(cs["cfg"]["deftime"]), "zone": list(cs["cfg"]["zone"])},
+         "items": [(a, t) for a, t in cs["items"]], "tags": list(cs.get("tags") or []), "rzones": [tuple(z) for z in cs["rzones"]], "src": "replay"}
+    print("configuration %s, report zones %s\njournal:\n%s" % (cfg_toml_kw(c["cfg"]), [z[0] for z in c["rzones"]], journal_of(c["items"])))
+    corr_build("C16")
+    harness_build()
+    main(run, only=[c])
+    print("implementation now: stage %s, %s" % (c.get("stage"), json.dumps(c.get("impl"), ensure_ascii=False)[:2000]))
+    return replay_verdict(run, path, j, "the stored time stamps denote the specified instants, order, frame and display are as specified and the model agrees "
+                                        "(stage under UTC: %s)" % c.get("stage"))
